@@ -5,6 +5,8 @@ import (
 	"math/big"
 	"strings"
 
+	"golang.org/x/text/encoding/ianaindex"
+
 	"verifharness/common"
 )
 
@@ -105,6 +107,45 @@ type parts struct {
 	cur   strings.Builder
 	texts []string
 	lits  [][]byte
+	enc   func(string) []byte // how the text of a string key goes on the wire (the CHARSET of the command); nil = as it is
+}
+
+// charsets of the SEARCH command: the name on the wire and the constructor of the Coq model
+var charsetCoq = map[string]string{"": "CsNone", "UTF-8": "CsUtf8", "utf-8": "CsUtf8", "US-ASCII": "CsAscii", "ISO-8859-1": "CsLatin1",
+	"iso-8859-1": "CsLatin1", "windows-1252": "CsCp1252", "ISO-8859-15": "CsLatin9", "KOI8-R": "CsKoi8r"}
+
+// encodeFor: the bytes of s in the charset, false when s cannot be expressed in it
+func encodeFor(charset, s string) ([]byte, bool) {
+	switch charset {
+	case "", "UTF-8", "utf-8":
+		return []byte(s), true
+	case "US-ASCII":
+		for _, c := range []byte(s) {
+			if c >= 0x80 {
+				return nil, false
+			}
+		}
+		return []byte(s), true
+	}
+	enc, err := ianaindex.IANA.Encoding(charset)
+	if err != nil || enc == nil {
+		return nil, false
+	}
+	b, err := enc.NewEncoder().Bytes([]byte(s))
+	if err != nil {
+		return nil, false
+	}
+	return b, true
+}
+
+func wireEncoder(charset string) func(string) []byte {
+	return func(s string) []byte {
+		b, ok := encodeFor(charset, s)
+		if !ok {
+			panic("c15: key " + s + " cannot be expressed in " + charset)
+		}
+		return b
+	}
 }
 
 func (p *parts) text(s string) { p.cur.WriteString(s) }
@@ -130,13 +171,17 @@ func isAtomSafe(s string) bool {
 }
 
 func (p *parts) astring(s string, form int) {
+	b := []byte(s)
+	if p.enc != nil {
+		b = p.enc(s)
+	}
 	switch {
-	case form == 2 && len(s) > 0: // a zero-length literal closes the connection (C11 finding D20), not this property's business
-		p.lit([]byte(s))
+	case form == 2 && len(b) > 0: // a zero-length literal closes the connection (C11 finding D20), not this property's business
+		p.lit(b)
 	case form == 0 && isAtomSafe(s):
-		p.text(s)
+		p.text(string(b))
 	default:
-		p.text(`"` + strings.ReplaceAll(strings.ReplaceAll(s, `\`, `\\`), `"`, `\"`) + `"`)
+		p.text(`"` + strings.ReplaceAll(strings.ReplaceAll(string(b), `\`, `\\`), `"`, `\"`) + `"`)
 	}
 }
 
@@ -212,22 +257,24 @@ func keysText(keys []*key) string {
 	return sb.String()
 }
 
-func (k *key) coq() string {
+func (k *key) coq(enc func(string) []byte) string {
 	switch k.Kind {
 	case "NOT":
-		return "KNot (" + k.Sub[0].coq() + ")"
+		return "KNot (" + k.Sub[0].coq(enc) + ")"
 	case "OR":
-		return "KOr (" + k.Sub[0].coq() + ") (" + k.Sub[1].coq() + ")"
+		return "KOr (" + k.Sub[0].coq(enc) + ") (" + k.Sub[1].coq(enc) + ")"
 	case "LIST":
-		return "KList " + keysCoq(k.Sub)
+		return "KList " + keysCoq(k.Sub, enc)
 	case "SEQSET":
 		return "L (LSeqSet " + setCoq(k.Set) + ")"
 	case "UID":
 		return "L (LUid " + setCoq(k.Set) + ")"
-	case "KEYWORD", "UNKEYWORD", "BCC", "CC", "FROM", "SUBJECT", "TO", "BODY", "TEXT":
+	case "KEYWORD", "UNKEYWORD":
 		return "L (" + coqLeaf[k.Kind] + " (" + coqBytes([]byte(k.Str)) + "))"
+	case "BCC", "CC", "FROM", "SUBJECT", "TO", "BODY", "TEXT":
+		return "L (" + coqLeaf[k.Kind] + " (" + coqBytes(enc(k.Str)) + "))"
 	case "HEADER":
-		return "L (LHeader (" + coqBytes([]byte(k.Fld)) + ") (" + coqBytes([]byte(k.Str)) + "))"
+		return "L (LHeader (" + coqBytes([]byte(k.Fld)) + ") (" + coqBytes(enc(k.Str)) + "))"
 	case "LARGER", "SMALLER":
 		return "L (" + coqLeaf[k.Kind] + " " + k.Num.String() + ")"
 	case "BEFORE", "ON", "SINCE", "SENTBEFORE", "SENTON", "SENTSINCE":
@@ -237,10 +284,10 @@ func (k *key) coq() string {
 	}
 }
 
-func keysCoq(keys []*key) string {
+func keysCoq(keys []*key, enc func(string) []byte) string {
 	s := make([]string, len(keys))
 	for i, k := range keys {
-		s[i] = k.coq()
+		s[i] = k.coq(enc)
 	}
 	return "[" + strings.Join(s, "; ") + "]"
 }
